@@ -147,9 +147,7 @@ def gen_timespan(rng):
     return rng.choice(["5x", "m", "", "5", "5 ", "m5", "5mm", "1__0s", "_5s", "5.5m", "0x10s", "5S"])
 
 
-def gen_case(rng, tier):
-    k = gen_k(rng)
-    pipe = gen_pipe(rng)
+def gen_base(rng):
     names = rng.sample(["rule_a", "rule_b", "rule_c", "rule_d"], rng.randint(1, 4))
     docs = [gen_plain(rng, n) for n in names]
     avail = list(names)
@@ -162,6 +160,11 @@ def gen_case(rng, tier):
         if docs[-1]["correlation"]["group-by"] is None:
             del docs[-1]["correlation"]["group-by"]
         avail.append("corr_n")
+    return docs, avail
+
+
+def gen_top(rng, avail, alias_pool=ALIASES, palias=0.45, name="top", group_pool=FIELDS):
+    """one correlation rule over the available documents; returns (document, source tree of its extended condition)"""
     typ = rng.choice(TYPES)
     nref = rng.choice([1, 1, 2, 2, 3, 4])
     refs = rng.sample(avail, min(nref, len(avail)))
@@ -200,8 +203,8 @@ def gen_case(rng, tier):
                 c["percentile"] = rng.choice([50, 95, 99, 0])
             corr["condition"] = c
     als = {}
-    if rng.random() < 0.45:
-        for a in rng.sample(ALIASES, rng.choice([1, 1, 2])):
+    if rng.random() < palias:
+        for a in rng.sample(alias_pool, rng.choice([1, 1, 2])):
             mp = {}
             for n, rid in zip(refs, refids):
                 if rng.random() < 0.75:
@@ -216,15 +219,23 @@ def gen_case(rng, tier):
         if als:
             corr["aliases"] = als
     if rng.random() < (0.8 if als else 0.5):
-        g = rng.sample(FIELDS, rng.randint(0, 2)) + [a for a in als if rng.random() < 0.8]
+        g = rng.sample(group_pool, rng.randint(0, 2)) + [a for a in als if rng.random() < 0.8]
         rng.shuffle(g)
         if g:
             corr["group-by"] = g if (len(g) > 1 or rng.random() < 0.7) else g[0]
     if rng.random() < 0.3:
         corr["generate"] = rng.random() < 0.6
-    top = {"title": "T top", "name": "top", "correlation": corr}
+    top = {"title": "T " + name, "name": name, "correlation": corr}
     if rng.random() < 0.35:
         top["fields"] = rng.sample(FIELDS, rng.randint(1, 3))
+    return top, xsrc
+
+
+def gen_case(rng, tier):
+    k = gen_k(rng)
+    pipe = gen_pipe(rng)
+    docs, avail = gen_base(rng)
+    top, xsrc = gen_top(rng, avail)
     return {"k": k, "pipe": pipe, "docs": docs + [top], "xsrc": xsrc}
 
 
@@ -589,6 +600,103 @@ def mutate_corr(case, rng):
     return out
 
 
+# --------------------------------------------------------------------------------------------------
+# suite multi: several correlation rules through one backend / pipeline object
+MAPPED = ["src", "u", "x", "y"]          # event fields the multi-suite pipelines always rename
+
+
+def multi_pipe(rng):
+    m = [[f, ["m_" + f]] for f in MAPPED if rng.random() < 0.85]
+    if not m:
+        m = [["src", ["m_src"]]]
+    pipe = [{"kind": "map", "map": m}]
+    r = rng.random()
+    if r < 0.2:
+        pipe.append({"kind": rng.choice(["prefix", "suffix"]), "s": rng.choice(["p.", "_s"])})
+    elif r < 0.3:
+        pipe = [{"kind": rng.choice(["prefix", "suffix"]), "s": "_z"}]
+    return pipe
+
+
+def multi_fixed():
+    """the smallest exposing shapes, every order and both modes: one rule defines an alias NAMED like a mapped event
+    field, another rule (without that alias) groups by that event field"""
+    out = []
+    k = {"prec": ["not", "and", "or"], "parenthesize": False, "single": True, "norm": True, "typing": False, "ts": "map",
+         "nofield": False, "fields": False, "finalize": False, "own_frame": True, "post": False}
+    for f in MAPPED:
+        docs = [{"title": "T rule_a", "name": "rule_a", "logsource": {"category": "c"}, "detection": {"sel": {f: "admin"}, "condition": "sel"}},
+                {"title": "T rule_b", "name": "rule_b", "logsource": {"category": "c"}, "detection": {"sel": {"k-1": 1}, "condition": "sel"}}]
+        with_alias = {"title": "T top0", "name": "top0", "correlation": {
+            "type": "event_count", "rules": ["rule_a", "rule_b"], "timespan": "5m", "group-by": [f],
+            "aliases": {f: {"rule_a": f, "rule_b": "k-1"}}, "condition": {"gte": 2}}}
+        plain = {"title": "T top1", "name": "top1", "correlation": {
+            "type": "event_count", "rules": ["rule_a"], "timespan": "5m", "group-by": [f, "Z_9"], "condition": {"gte": 3}}}
+        other = {"title": "T top2", "name": "top2", "correlation": {
+            "type": "value_count", "rules": ["rule_a"], "timespan": "1h", "group-by": ["al", f],
+            "aliases": {"al": {"rule_a": f}}, "condition": {"gte": 3, "field": f}}}
+        for tops in ([with_alias, plain], [with_alias, plain, other]):
+            for order in itertools.permutations(range(len(tops))):
+                for mode in ("one", "consecutive"):
+                    out.append({"k": k, "pipe": [{"kind": "map", "map": [[g, ["m_" + g]] for g in MAPPED]}], "docs": docs,
+                                "tops": copy.deepcopy(tops), "xsrcs": [None] * len(tops), "order": list(order), "mode": mode})
+    return out
+
+
+def gen_multi(tier, rng):
+    out = multi_fixed()
+    n = 110 if tier == "quick" else 2500
+    for _ in range(n):
+        docs, avail = gen_base(rng)
+        ntop = rng.choice([2, 2, 3])
+        tops, xsrcs = [], []
+        for i in range(ntop):
+            # alias names drawn from the renamed event fields, group-by drawn from the same fields
+            t, x = gen_top(rng, avail, alias_pool=MAPPED + ["al"], palias=0.6, name="top%d" % i,
+                           group_pool=MAPPED + ["Z_9", "my field"])
+            if t["correlation"]["timespan"] and rng.random() < 0.9:
+                t["correlation"]["timespan"] = "%d%s" % (rng.choice([1, 5, 30]), rng.choice(UNITS))   # mostly valid
+            tops.append(t); xsrcs.append(x)
+        orders = list(itertools.permutations(range(ntop)))
+        for order in (orders if tier != "quick" else rng.sample(orders, 2)):
+            out.append({"k": gen_k(rng), "pipe": multi_pipe(rng) if rng.random() < 0.85 else gen_pipe(rng), "docs": docs,
+                        "tops": tops, "xsrcs": xsrcs, "order": list(order), "mode": rng.choice(["one", "consecutive"])})
+    return out
+
+
+def _sub(case, i):
+    return {"k": case["k"], "pipe": case["pipe"], "docs": case["docs"] + [case["tops"][i]], "xsrc": case["xsrcs"][i]}
+
+
+def multi_to_coq(case, res):
+    if not isinstance(res, list) or len(res) != len(case["tops"]):
+        return None
+    terms = [corr_to_coq(_sub(case, i), r) for i, r in enumerate(res)]
+    if any(t is None for t in terms):
+        return None
+    return clist(terms)
+
+
+def known_multi(case, res):
+    for i in range(len(case["tops"])):
+        fid = known_corr(_sub(case, i), None)
+        if fid:
+            return fid
+    return None
+
+
+def mutate_multi(case, rng):
+    out = []
+    for order in itertools.permutations(range(len(case["tops"]))):
+        for mode in ("one", "consecutive"):
+            out.append(dict(copy.deepcopy(case), order=list(order), mode=mode))
+    return out
+
+
+def stratum_multi(case, res):
+    return "%s/%d tops" % (case["mode"], len(case["tops"]))
+
+
 def stratum_corr(case, res):
     corr = case["docs"][-1]["correlation"]
     return corr["type"] + ("/ext" if isinstance(corr.get("condition"), str) else "")
@@ -626,6 +734,8 @@ PROPERTY = Property(
     suites=[
         Suite("corr", gen_corr, "run_corr", REQ, "judge_corr", corr_to_coq, known=known_corr, mutate=mutate_corr,
               stratum=stratum_corr, shard=120),
+        Suite("multi", gen_multi, "run_multi", REQ, "judge_multi", multi_to_coq, known=known_multi, mutate=mutate_multi,
+              stratum=stratum_multi, shard=50),
         Suite("timespan", gen_ts, "run_ts", REQ, "judge_ts", ts_to_coq, shard=2000),
     ],
     rule="rule collections: 1-4 plain rules (1-3 conditions, optional id / fields) + optional nested correlation rule + the correlation "
@@ -636,6 +746,10 @@ PROPERTY = Property(
          "sub-query finalisation, per-type or default frame, query post-processing) x pipelines (none, 1:1 / 1:n / 1:0 field mappings, "
          "prefix/suffix, two items, log-source-conditioned items). A (type x unit x operator) covering block is always included, and all extended conditions with up to 3 leaves over two rules (~1750 expressions, incl. nested not and same-operator nesting; quick: a sample of 150) under random precedence orders. "
          "non-trivial = aliases, an extended condition, >= 2 references or a pipeline; distinct by case hash. "
+         "multi suite: 2-3 correlation rules over one set of documents converted through ONE backend / pipeline object, in every order of "
+         "the correlation rules (quick: 2 orders), either in one rule set or by consecutive convert() calls; alias names are drawn from the "
+         "event fields the pipeline renames and other rules group by those fields; a fixed block holds the smallest such shapes in all orders "
+         "and both modes; every correlation rule is judged on its own by the unchanged model and specification. "
          "timespan suite: all counts below 130 (quick) / 1500 (thorough) x 7 units, hostile spellings, random counts up to 10^12",
     assumptions=[
         "the referenced rules' own queries are obtained by converting them separately with the real code (their content is C01/C05's subject); "
